@@ -116,11 +116,13 @@ def methods : List (String × List Step) := [
     { kinds := none, attr := "directives", shape := .many, guard := .always, assign := true, target := (.method "_visit_directive") },
     { kinds := none, attr := "selection_set", shape := .one, guard := .always, assign := true, target := (.method "_visit_selection_set") }]),
   ("_visit_fragment_definition", [
+    { kinds := none, attr := "variable_definitions", shape := .many, guard := .always, assign := true, target := (.method "_visit_variable_definition") },
     { kinds := none, attr := "directives", shape := .many, guard := .always, assign := true, target := (.method "_visit_directive") },
     { kinds := none, attr := "selection_set", shape := .one, guard := .always, assign := true, target := (.method "_visit_selection_set") }]),
   ("_visit_variable_definition", [
     { kinds := none, attr := "default_value", shape := .one, guard := .truthy, assign := true, target := (.method "_visit_value") },
-    { kinds := none, attr := "type", shape := .one, guard := .always, assign := true, target := (.method "_visit_type") }]),
+    { kinds := none, attr := "type", shape := .one, guard := .always, assign := true, target := (.method "_visit_type") },
+    { kinds := none, attr := "directives", shape := .many, guard := .always, assign := true, target := (.method "_visit_directive") }]),
   ("_visit_type", []),
   ("_visit_directive", [
     { kinds := none, attr := "arguments", shape := .many, guard := .always, assign := true, target := (.method "_visit_argument") }]),
@@ -275,6 +277,9 @@ def leaveRegistry : List (String × String) := [
 /-- the wrapper runs the method of the class of the node RETURNED by `enter` when that class differs from the
     argument's (observed on the real code by `probe_cross_kind`; true with proposed fix C18-W7) -/
 def crossKind : Bool := true
+
+/-- `ChainedVisitor`: a member's SkipNode is the raiser's own (observed by `probe_chain_skip`; true with proposed fix C18-W8) -/
+def chainPersonalSkip : Bool := true
 
 def table : Table := { methods := methods, visit := visitDispatch, dispatchers := dispatchers, slots := slots, crossKind := crossKind }
 
